@@ -598,7 +598,8 @@ def analyse(repo) -> dict:
                 return len(n.args), ns
         return 0, None
 
-    et = _find_func(gb_tree, "executetask", "WorkerGateway")
+    # `executetask` may be a thin wrapper (try: self._executetask(item) finally: …) around the function that does the work
+    et = _find_func(gb_tree, "_executetask", "WorkerGateway") or _find_func(gb_tree, "executetask", "WorkerGateway")
     nargs_task, ns_task = exec_call(et, ("exec",))
     inj_task, inj_task_maybe = dict_keys_of(et, ns_task) if ns_task else ([], [])
     ss_tree = trees[os.path.join("script", "socketserver.py")]
